@@ -167,6 +167,10 @@ func (x *Exec) enterLoopHeader(st *State, fr *Frame, from, to *ssa.BasicBlock, o
 		}
 	}
 	isBack := from != nil && li.body[h][from.Index]
+	if fr.depth > 0 && unroll >= 0 {
+		// an inlined callee that offers both: callers unroll it, its own verification uses the invariant
+		invs, decs, cutFlag = nil, nil, false
+	}
 	cut := len(invs) > 0 || cutFlag
 
 	if cut {
